@@ -59,6 +59,10 @@ type Req struct {
 	BGen *BodyGen `json:"bgen,omitempty"`
 	To   int      `json:"to,omitempty"` // ms to wait for the response (default 5000)
 	Tag  string   `json:"tag,omitempty"`
+	// Mid: a second request issued after this request's headers were sent (its handler has been
+	// dispatched and waits for the body) and answered before the body is sent: a state change racing
+	// with a request that already passed the router's state gate
+	Mid *Req `json:"mid,omitempty"`
 }
 
 type RepState struct {
@@ -90,6 +94,7 @@ type Res struct {
 	Stack  string `json:"stack,omitempty"`
 	Probe  bool   `json:"probe"`
 	Lock   string `json:"lock"` // free | held
+	BodyLock string `json:"bodylock,omitempty"` // held: the API object's mutex was held while the handler waited for the request body
 	Body   string `json:"body,omitempty"`
 	Skipped bool  `json:"skipped,omitempty"`
 }
@@ -249,6 +254,7 @@ type child struct {
 	panicMu sync.Mutex
 	lastP   string
 	lastS   string
+	bodyLock string
 }
 
 func (ch *child) serve(listen string, h http.Handler) error {
@@ -486,6 +492,21 @@ func (ch *child) rawRequest(host string, r Req, timeout time.Duration) (int, str
 	}
 	var b bytes.Buffer
 	fmt.Fprintf(&b, "%s %s HTTP/1.1\r\nHost: %s\r\nConnection: close\r\nContent-Type: application/json\r\nContent-Length: %d\r\n\r\n", r.M, target, host, len(body))
+	if r.Mid != nil {
+		if _, err := conn.Write(b.Bytes()); err == nil {
+			b.Reset()
+			time.Sleep(60 * time.Millisecond)
+			// the handler (if the router dispatched one) now waits for the body
+			ch.bodyLock = "free"
+			if !ch.lockFree(400 * time.Millisecond) {
+				ch.bodyLock = "held"
+			}
+			mid := *r.Mid
+			mid.Mid = nil
+			ch.rawRequest(host, mid, 1500*time.Millisecond)
+			conn.SetDeadline(time.Now().Add(timeout))
+		}
+	}
 	b.Write(body)
 	if _, err := conn.Write(b.Bytes()); err != nil {
 		// the server may answer (and close) before a huge body is fully written: still read the answer
@@ -560,8 +581,9 @@ func childMain(workdir string, ipb int) {
 		ch.lastP, ch.lastS = "", ""
 		ch.panicMu.Unlock()
 		t0 := time.Now()
+		ch.bodyLock = ""
 		st, body, rerr := ch.rawRequest(host, r, to)
-		res := Res{St: st, Ms: time.Since(t0).Milliseconds(), Body: body}
+		res := Res{St: st, Ms: time.Since(t0).Milliseconds(), Body: body, BodyLock: ch.bodyLock}
 		if rerr != nil {
 			res.Err = rerr.Error()
 		}
@@ -685,6 +707,8 @@ func runCase(self string, c Case, workdir string, ipb int) Out {
 			o.Violation, o.At = "hang", i
 		case r.Lock == "held":
 			o.Violation, o.At = "lock-held", i
+		case r.BodyLock == "held":
+			o.Violation, o.At = "lock-held-while-reading-body", i
 		case !r.Probe:
 			o.Violation, o.At = "probe-failed", i
 		}
